@@ -6,7 +6,7 @@ shows up as the *untouched* twin diverging from its model.
 """
 from . import common
 
-EXTRA_OPS = {"twin", "nested_edit"}
+EXTRA_OPS = {"twin", "nested_edit", "cyclic_twin", "big_complex"}
 EXPECTED_PROBES = ["nested_attribute_edit_on_copy", "twin_of_frozen:copy"]
 
 
@@ -32,10 +32,106 @@ def next_record(sim):
         return common.gen_twin(sim, sim.cfg["twin_hows"])
     if x < sim.cfg["p_twin"] + sim.cfg["p_nested"]:
         return common.gen_nested_edit(sim)
+    if g.r.random() < 0.0005:
+        return common.gen_big_complex(sim, ["copy", "copy", "ctor", "pickle"])
+    if x < sim.cfg["p_twin"] + sim.cfg["p_nested"] + 0.02:
+        return {"uid": g.next_uid(), "op": "cyclic_twin", "kind": g.r.choice(["H", "DH", "SC"]),
+                "how": g.r.choice(["copy", "copy", "pickle", "ctor"]), "shape": g.r.randrange(4),
+                "where": g.r.choice(["node", "edge", "net"])}
     return None
 
 
 def exec_extra(sim, rec):
     if rec["op"] == "twin":
         return common.do_twin(sim, rec)
+    if rec["op"] == "cyclic_twin":
+        return do_cyclic_twin(sim, rec)
+    if rec["op"] == "big_complex":
+        return common.do_big_complex(sim, rec, {"C07"})
     return common.do_nested_edit(sim, rec)
+
+
+def do_cyclic_twin(sim, rec):
+    """nested mutable attribute values may be *cyclic* (a list that contains itself, an attribute
+    dict reachable from its own values, two attribute dicts that refer to each other).  A
+    self-contained experiment on a small fresh network: the twin must be produced, the cycle must be
+    reproduced inside the twin, and an edit through the twin's cycle must not show in the source."""
+    import pickle
+    import warnings
+    w = sim.world
+    xgi = sim.xgi
+    kind, how, shape, where = rec["kind"], rec["how"], rec["shape"], rec["where"]
+    with warnings.catch_warnings():
+        warnings.simplefilter("ignore")
+        if kind == "H":
+            A = xgi.Hypergraph([[1, 2, 3], [3, 4]])
+        elif kind == "SC":
+            A = xgi.SimplicialComplex([[1, 2, 3], [3, 4]])
+        else:
+            A = xgi.DiHypergraph([([1, 2], [3]), ([3], [4])])
+        e0 = list(A.edges)[0]
+
+        def record(X):
+            return X.nodes[1] if where == "node" else (X.edges[e0] if where == "edge" else X._net_attr)
+
+        d = record(A)
+        if shape == 0:
+            cyc = [5]
+            cyc.append(cyc)            # a list that contains itself
+            d["loop"] = cyc
+        elif shape == 1:
+            d["me"] = d                # the attribute dict itself among its values
+        elif shape == 2:
+            d["box"] = [d]             # ... inside a list
+        else:
+            other = A.nodes[2] if where != "node" else A.nodes[3]
+            d["partner"] = other       # two records that refer to each other
+            other["partner"] = d
+        w.stats["op:cyclic_twin." + how] += 1
+        fake = dict(rec, op="cyclic_twin:" + how)
+        try:
+            if how == "copy":
+                B = A.copy()
+            elif how == "pickle":
+                B = pickle.loads(pickle.dumps(A))
+            else:
+                B = type(A)(A)
+        except BaseException as ex:  # noqa (RecursionError is what an unmemoised deep copy ends in)
+            if isinstance(ex, (KeyboardInterrupt, SystemExit)) or type(ex).__name__ == "StepTimeout":
+                raise
+            w.find({"C07"}, "twin_failed_on_cyclic_attribute_value", fake, kind,
+                   f"{how} of a network whose {where} attributes contain a reference cycle (shape {shape}): "
+                   f"{type(ex).__name__}: {str(ex)[:100]}")
+            return None
+        bd = record(B)
+        problems = []
+        if how == "ctor":
+            # (independence of nested values is stated for copy(); the constructor must produce the
+            # network, not necessarily deep copies of the values)
+            if set(B.nodes) != set(A.nodes) or set(B.edges) != set(A.edges):
+                w.find({"C07"}, "cyclic_attribute_value_not_copied_independently", fake, kind, "nodes / edges differ")
+            return None
+        if bd is d:
+            problems.append("the twin holds the source's attribute record itself")
+        key = {0: "loop", 1: "me", 2: "box", 3: "partner"}[shape]
+        if key not in bd:
+            problems.append(f"attribute {key!r} missing in the twin")
+        else:
+            v = bd[key]
+            if shape == 0 and not (isinstance(v, list) and len(v) == 2 and v[1] is v and v is not cyc):
+                problems.append("the self-containing list was not reproduced as a new self-containing list")
+            if shape == 1 and how != "ctor" and (v is d):
+                problems.append("the twin's record refers to the *source's* record")
+            if shape == 2 and (not isinstance(v, list) or v is d["box"] or (v and v[0] is d)) and how != "ctor":
+                problems.append("the twin's nested list is shared with / refers to the source")
+            if shape == 0:
+                v.append(99)
+                if len(cyc) != 2:
+                    problems.append("appending to the twin's list changed the source's list")
+        if set(B.nodes) != set(A.nodes) or set(B.edges) != set(A.edges):
+            problems.append("nodes / edges differ")
+        for pr in problems:
+            w.find({"C07"}, "cyclic_attribute_value_not_copied_independently", fake, kind,
+                   f"{how}, {where} attributes, shape {shape}: {pr}")
+            break
+    return None
